@@ -306,7 +306,8 @@ func genC03(r *Rand, tier string, i int) *h.Scenario {
 	p := DefaultProfile("C03")
 	p.RefreshW = [3]int{8, 1, 1}
 	p.PDelay = 0
-	p.PTerminal = 0.2
+	p.PTerminal = 0.35
+	p.PTightTerm = 0.3 // fewer lines than rows: clipped bars come into view when others leave
 	p.PWrap = 0.6
 	p.PQueueAfter = 0
 	p.PLate = 0.3
@@ -364,6 +365,9 @@ func judgeC03(hi *Hist) []*Violation {
 	facts := Facts(hi)
 	relaxed := cancelled(hi) || faulted(hi)
 	if len(frames) == 0 {
+		if hi.Sc.Cont.Terminal && hi.Sc.Cont.TermH < 2 {
+			return out // a one-line terminal has no room for a row above the cursor's line
+		}
 		for _, bf := range facts {
 			if bf.Added && !relaxed && !removable(hi, bf) {
 				add("no-final-frame", "bar %d finished and stays in the container but no frame was ever written", bf.Idx)
@@ -398,6 +402,11 @@ func judgeC03(hi *Hist) []*Violation {
 		checkDecorations(hi, facts[g.Bar], row, fin.Completed && !fin.Aborted, fin.Aborted && !fin.Completed, add)
 	}
 	if relaxed {
+		return out
+	}
+	// a last frame clipped by the terminal height cannot show every bar
+	if len(last.Spy) > len(last.Groups) {
+		note("c03_last_frame_clipped")
 		return out
 	}
 	for _, bf := range facts {
@@ -643,6 +652,9 @@ func judgeC13(hi *Hist) []*Violation {
 			continue
 		}
 		for _, l := range strings.Split(strings.TrimSuffix(op.Op.S, "\n"), "\n") {
+			if l == "" {
+				continue // an empty Write has no line
+			}
 			mult[l]++
 			if op.Ret >= 0 && op.RS == "" && int(op.R) == len(op.Op.S) {
 				multOK[l]++
